@@ -127,6 +127,8 @@ def gen_name(rng, cls):
         return r.choice(SORTLIKE)
     if cls == "internal-like":
         return r.choice(INTERNAL_LIKE)
+    if cls == "formal-parameter-like":
+        return r.choice(["x0", "x1", "x2", "x3", "x4", "x5"])
     if cls == "long":
         n = r.choice([64, 200, 1000, 3000])
         base = "".join(r.choice("abcdefghijklmnopqrstuvwxyz_0123456789") for _ in range(n))
